@@ -69,13 +69,13 @@ impl Path {
             }
         }
 
-        let cs_cell = OnceCell::new();
-        let _ = cs_cell.set(cs);
-
+        // The text is always regenerated from the components (see
+        // `get_components_string`), so that it keeps the leading dot of a
+        // relative path and is the same for equal paths.
         Path {
             components,
             is_relative,
-            components_string: cs_cell,
+            ..Default::default()
         }
     }
 
